@@ -117,6 +117,8 @@ def in_model(tree, mstates, times):
     return False
 
 # ------------------------------------------------------------------------------------------------ scenarios
+NO_MODEL = " [oracles only]"     # scenarios whose crash states are not enumerated in the model (too large): oracles still run
+
 def write_scenarios(binf, tier, rng):
     """(name, setup_ops, ops, targets, keys, new_data) — the write variants of C03 / C04"""
     fls = ["sync"] if binf == "sync" else (["async"] if tier == "quick" else ["sync", "async"])
@@ -143,6 +145,26 @@ def write_scenarios(binf, tier, rng):
                     {"op": "wchunk", "w": 1, "data": b"ab".hex(), "mode": "write_all"},
                     {"op": "wchunk", "w": 1, "data": b"cde".hex(), "mode": "write_all"}, {"op": "commit", "w": 1}],
                [1, 2, 3], [], b"abcde")
+        yield (f"{fl} streamed by address, declared size 64, only 10 bytes written (temp file trimmed before it is published)",
+               [], [{"op": "open", "fl": fl, "w": 1, "size": 64, "algo": "sha256"},
+                    {"op": "wchunk", "w": 1, "data": b"0123456789".hex(), "mode": "write_all"}, {"op": "commit", "w": 1}],
+               [2], [], b"0123456789")
+        yield (f"{fl} streamed keyed, declared size 64, only 10 bytes written, address already present (commit is rejected)",
+               [{"op": "write", "fl": "sync", "key": K2, "data": b"0123456789".hex(), "algo": "sha256"}],
+               [{"op": "open", "fl": fl, "w": 1, "key": K, "size": 64, "algo": "sha256", "time": "7"},
+                {"op": "wchunk", "w": 1, "data": b"0123456789".hex(), "mode": "write_all"}, {"op": "commit", "w": 1}],
+               [2], [K, K2], None)
+        # a key with a long history: the bucket is > 64 KiB (any size-triggered maintenance of the bucket happens here)
+        hist = []
+        for i in range(18):
+            hist += [{"op": "open", "fl": "sync", "w": 20 + i, "key": K, "time": str(100 + i), "meta": {"pad": "é" * 2000, "i": i}},
+                     {"op": "wchunk", "w": 20 + i, "data": (b"v%d" % i).hex(), "mode": "write_all"}, {"op": "commit", "w": 20 + i}]
+            if i % 7 == 6:
+                hist.append({"op": "remove", "fl": "sync", "key": K})
+        hist.append({"op": "write", "fl": "sync", "key": K2, "data": b"x".hex(), "algo": "sha256"})
+        yield (f"{fl} overwrite of a key with a long history (bucket > 64 KiB)" + NO_MODEL, hist,
+               [{"op": "open", "fl": fl, "w": 1, "key": K, "time": "900", "meta": ["néw"]}, {"op": "wchunk", "w": 1, "data": D.hex(), "mode": "write_all"}, {"op": "commit", "w": 1}],
+               [2], [K, K2], D)
         yield (f"{fl} remove (tombstone)",
                [{"op": "open", "fl": "sync", "w": 9, "key": K, "time": "5"}, {"op": "wchunk", "w": 9, "data": D.hex(), "mode": "write_all"}, {"op": "commit", "w": 9},
                 {"op": "write", "fl": "sync", "key": K2, "data": b"x".hex(), "algo": "sha256"}],
@@ -231,8 +253,8 @@ def suite_kill(binf, tier, rng, which):
         finally:
             shutil.rmtree(base, ignore_errors=True)
         for t in targets:
-            big = data is not None and len(data) > 4096
-            torn = None if big else "all"
+            big = (data is not None and len(data) > 4096) or name.endswith(NO_MODEL)
+            torn = None if (data is not None and len(data) > 4096) else "all"
             def torn_select(c):
                 p = c.get("fdpath")
                 if not p or p[0] != "c" or not _small_write(c):
@@ -308,7 +330,7 @@ def _c04_oracle(a, before, after_ref, keys, data):
         rd = look[("read", k0)]
         if rd != after_ref[("read", k0)]:
             return f"the new entry is visible but reading it gives {str(rd)[:120]} instead of the new data"
-    if got == old and old[2] is not None and look[("read", k0)] != before[("read", k0)] and new != old:
+    if got == old and old[2] is not None and look[("read", k0)] != before[("read", k0)]:
         # the old entry is still what a lookup returns: its data must still be readable
         return f"the previous entry is still visible but reading it gives {str(look[('read', k0)])[:120]}"
     for k in keys[1:]:
@@ -471,6 +493,64 @@ def suite_fault_retry(binf, tier, rng):
                         out["failures"].append({"concrete": True, "text": f"{tag}: after the successful retry the key reads {str(last)[:120]}", "replay": rep}); continue
                     if kind == "stream" and last.get("r") != "ok":
                         out["failures"].append({"concrete": True, "text": f"{tag}: commit reported success but the key reads {str(last)[:120]}", "replay": rep}); continue
+    return out
+
+# ------------------------------------------------------------------------------------------------ C16
+def suite_rewrite_kill(binf, tier, rng):
+    """C16 "storing the same bytes again leaves the stored copy byte-identical": while equal data is re-written (any entry
+    point), the process is killed on entry to every mutating system call; in every surviving directory the stored copy is
+    still there with the same bytes and the key that pointed at it still reads them."""
+    out = {"runs": 0, "skipped": 0, "failures": [], "dist": {}}
+    K, K2 = kx("first"), kx("second")
+    fls = ["sync"] if binf == "sync" else ["async"]
+    algos = ["sha256"] if tier == "quick" else ["sha256", "sha1", "sha512", "xxh3"]
+    for fl in fls:
+        for algo in algos:
+            D = b"the very same bytes " + algo.encode()
+            setup = [{"op": "write", "fl": "sync", "key": K, "data": D.hex(), "algo": algo}]
+            rel = os.path.join("content-v2", algo, *(lambda h: (h[:2], h[2:4], h[4:]))(hashes.digest(algo, D).hex()))
+            variants = [
+                ("one-shot, other key", [{"op": "write", "fl": fl, "key": K2, "data": D.hex(), "algo": algo}], [0]),
+                ("one-shot, same key", [{"op": "write", "fl": fl, "key": K, "data": D.hex(), "algo": algo}], [0]),
+                ("write_hash", [{"op": "write_hash", "fl": fl, "data": D.hex(), "algo": algo}], [0]),
+                ("streamed, declared size", [{"op": "open", "fl": fl, "w": 1, "key": K2, "size": len(D), "algo": algo},
+                                             {"op": "wchunk", "w": 1, "data": D.hex(), "mode": "write_all"}, {"op": "commit", "w": 1}], [2]),
+                ("streamed by address", [{"op": "open", "fl": fl, "w": 1, "algo": algo},
+                                         {"op": "wchunk", "w": 1, "data": D[:7].hex(), "mode": "write_all"},
+                                         {"op": "wchunk", "w": 1, "data": D[7:].hex(), "mode": "write_all"}, {"op": "commit", "w": 1}], [3]),
+            ]
+            if tier == "quick":
+                variants = variants[:1] + variants[3:4] if algo != "sha256" else variants
+            for vname, ops, targets in variants:
+                name = f"{fl} {algo} re-write of stored bytes: {vname}"
+                mk = make_state_fn(binf, setup)
+                for t in targets:
+                    def after(cache, ext, C, _binf=binf, _rel=rel):
+                        p = os.path.join(cache, _rel)
+                        r = {"present": os.path.isfile(p) and not os.path.islink(p)}
+                        if r["present"]:
+                            with open(p, "rb") as f: r["same"] = f.read() == D
+                        r["look"] = lookups(_binf, cache, ext, [K])
+                        return r
+                    try:
+                        res = T.kill_sweep(binf, mk, ops, t, after=after, torn=None, jobs=8)
+                    except T.TraceError as ex:
+                        out["dist"]["baseline:" + str(ex)[:60]] = 1
+                        continue
+                    for r in res:
+                        out["runs"] += 1
+                        if not r["ok"]:
+                            out["skipped"] += 1; continue
+                        a = r["after"]
+                        out["dist"][r["call"]["name"]] = out["dist"].get(r["call"]["name"], 0) + 1
+                        tag = f"{name} / op {t} / kill before {T.brief(r['call'])[:80]}"
+                        rep = {"scenario": name, "flavour": binf, "setup": setup, "ops": ops, "target": t, "kill_before": T.brief(r["call"])}
+                        if not a["present"]:
+                            out["failures"].append({"concrete": True, "text": f"{tag}: the stored copy {rel} is gone", "replay": rep}); continue
+                        if not a.get("same"):
+                            out["failures"].append({"concrete": True, "text": f"{tag}: the stored copy {rel} no longer holds the same bytes", "replay": rep}); continue
+                        if a["look"][("read", K)] != ("ok", "bytes", D.hex()):
+                            out["failures"].append({"concrete": True, "text": f"{tag}: the first key no longer reads the bytes: {str(a['look'][('read', K)])[:120]}", "replay": rep})
     return out
 
 # ------------------------------------------------------------------------------------------------ C15
